@@ -70,8 +70,8 @@ def run(ctx):
     rng = ctx.rng
     q = ctx.quick
     nmonths = 24 if q else 120
-    runs = feedmod.scale_runs(ctx, feedmod.gen_runs(rng, 6 if q else 60, 4 if q else 8, nmonths, 6 if q else 8,
-                                                    fixed=("ARG", "IND", "LSO", "WOR")))
+    runs = feedmod.scale_runs(ctx, feedmod.gen_runs(rng, 6 if q else 40, 4 if q else 8, nmonths, 6 if q else 8,
+                                                    fixed=("ARG", "IND", "LSO", "WOR"), pool=all_codes()))
     # every country once (baseline strategy, short horizon): the negative-births scan and the ledger at month 0..2
     scan = [{"code": c, "scenario": "baseline", "shape": "scan", "feed": [0.0, 1e3, 1e6], "grass": [1e6, 1e3, 0.0],
              "kdict": feedmod.KD0, "months": [0] if (q and i % 8) else [0, 1, 2]} for i, c in enumerate(all_codes())]
@@ -136,6 +136,66 @@ def run(ctx):
         jobs.append((len(jobs), defs, terms, meta))
     ctx.traces += stats.get("species_months", 0)
 
+    # ---- direct calls of calculate_change_in_population on generated states (binding hours budget, herds above / below
+    #      target, last slaughter above the baseline): model agreement + direct audit of the slaughter clauses
+    dcases = [{"code": c, "scenario": sc, "kdict": feedmod.KD0, "seed": rng.randint(0, 1 << 30), "n": 60 if q else 400}
+              for c in (["ARG", "IND", "WOR"] if q else ["ARG", "IND", "WOR", "LSO", "CHN", "USA", "ETH", "NZL", "MNG", "PAK"])
+              for sc in feedmod.SCENARIOS]
+    dres = ctx.run_impl("c06_impl", {"direct": dcases})["direct"]
+    dterms, dmeta = [], []
+    dstat = {"calls": 0, "budget_binding": 0, "no_hours": 0, "target_binding": 0}
+    for dc, dr in zip(dcases, dres):
+        if "error" in dr:
+            ctx.tie_ok = False
+            ctx.broken.append(f"main() raised {dr['error']} for {dc['code']}")
+            continue
+        for rec in dr["cases"]:
+            s_, stt = rec["static"], rec["state"]
+            rep = {"kind": "counterexample", "direct": {k: rec[k] for k in ("static", "state", "additive", "ret", "remaining", "month", "code", "scenario")}}
+            dstat["calls"] += 1
+            if "err" in rec:
+                ctx.violation("C06:hours@calculate_change_in_population", f"{rec['code']} {s_['type']}: raised {rec['err']}", rep)
+                continue
+            sl, pop1, _, _, od, _, left = rec["obs"]
+            h = s_["animal_slaughter_hours"]
+            sc_ = max(1.0, abs(stt[0]), abs(rec["remaining"]), abs(s_["target_population_head"]))
+            pre = stt[0] - od - rec["ret"] + rec["additive"]
+            planned_cap = stt[1] if rec["month"] else s_["baseline_slaughter"]
+            dstat["budget_binding"] += 0 < rec["remaining"] < planned_cap * h
+            dstat["no_hours"] += rec["remaining"] == 0
+            dstat["target_binding"] += pre >= s_["target_population_head"] and pre - planned_cap < s_["target_population_head"]
+            ctx.count((rec["code"], rec["scenario"], s_["type"], tuple(stt), rec["remaining"], rec["additive"], rec["month"]),
+                      nontrivial=stt[0] > 0 and rec["remaining"] > 0)
+            bad = []
+            if not sl * h <= rec["remaining"] + 1e-9 * sc_:
+                bad.append(("hours", f"slaughter {sl!r} x {h} hours exceeds the remaining hours {rec['remaining']!r}"))
+            if not abs(left - (rec["remaining"] - sl * h)) <= 1e-9 * sc_ or left < -1e-9 * sc_:
+                bad.append(("hours", f"hours left {left!r} != remaining {rec['remaining']!r} - slaughter {sl!r} x {h}"))
+            if not (0 <= sl <= max(0.0, pre) + 1e-9 * sc_):
+                bad.append(("slaughter-exceeds-available", f"slaughter {sl!r}, available {pre!r}"))
+            if pre >= s_["target_population_head"] and not pre - sl >= s_["target_population_head"] - 1e-9 * sc_:
+                bad.append(("below-target", f"herd after slaughter {pre - sl!r} < target {s_['target_population_head']!r}"))
+            if not abs(pop1 - max(0.0, pre - sl)) <= 1e-9 * sc_:
+                bad.append(("ledger", f"herd after slaughter {pop1!r} != max(0, {pre!r} - {sl!r})"))
+            for k_, w_ in bad:
+                ctx.violation(f"C06:{k_}@calculate_change_in_population", f"{rec['code']} {s_['type']}: {w_}", rep)
+            dterms.append(f"check_phase_b {TOL} {cbool(rec['month'] == 0)} {static_term(s_, {s_['species']: 0})} {fql(stt)} "
+                          f"{fq(rec['additive'])} {fq(rec['ret'])} {fq(rec['remaining'])} {fql(rec['obs'])}")
+            dmeta.append(rep)
+    dcodes = ctx.coq_codes("c06_direct", IMPORTS, dterms, per_file=300)
+    dbad = 0
+    for code, rep in zip(dcodes, dmeta):
+        if code != 0:
+            dbad += 1
+            ctx.tie_ok = False
+            if dbad <= 2:
+                names = {1: "slaughter", 2: "population after slaughter", 3: "pregnant total", 4: "pregnant birthing", 5: "natural deaths",
+                         6: "slaughtered pregnant", 7: "hours left"}
+                ctx.broken.append(f"correspondence calculate_change_in_population vs Model/Herd.phase_b: {names.get(code, code)}")
+                ctx.violation("C06:tie:phase_b", f"model and implementation disagree on {names.get(code, code)} "
+                              f"({rep['direct']['code']} {rep['direct']['static']['type']})", dict(rep, kind="tie-broken"))
+    ctx.notes["direct_calls"] = dict(dstat, disagreements=dbad)
+
     # several runs per Coq file (each with its own statics definition), files evaluated in parallel
     batches, cur, w = [], [], 0
     for j in jobs:
@@ -188,6 +248,23 @@ def run(ctx):
 
 def replay(rep):
     ctx = lib.Ctx("C06", "quick", rep.get("seed", 0))
+    if rep.get("direct"):
+        d = rep["direct"]
+        print("direct call of calculate_change_in_population: re-run ./check C06 (the generated state is in the replay file):",
+              d["code"], d["static"]["type"], "state", d["state"], "remaining", d["remaining"], "additive", d["additive"])
+        dres = ctx.run_impl("c06_impl", {"direct": [{"code": d["code"], "scenario": d["scenario"], "kdict": feedmod.KD0, "seed": 1, "n": 200}]})["direct"][0]
+        nbad = 0
+        for rec in dres.get("cases", []):
+            if "err" in rec:
+                nbad += 1
+                continue
+            sl, _, _, _, _, _, left = rec["obs"]
+            h = rec["static"]["animal_slaughter_hours"]
+            scl = max(1.0, abs(rec["remaining"]), abs(rec["state"][0]))
+            if sl * h > rec["remaining"] + 1e-9 * scl or abs(left - (rec["remaining"] - sl * h)) > 1e-9 * scl:
+                nbad += 1
+        print("REPRODUCED" if nbad else "not reproduced", nbad, "of", len(dres.get("cases", [])), "generated direct calls violate the hours clauses")
+        return 1 if nbad else 0
     rn = rep.get("run")
     if not rn:
         print("replay file carries no input (proof or tie broken without a concrete case):", rep.get("what"))
